@@ -300,7 +300,16 @@ def run_cli(shard, ctx):
     scratch = Path(os.environ.get("VERIF_SHARD_SCRATCH", "."))
     for i in range(shard["n"]):
         rng = rng_for(shard["seed"], "c03cli", shard["index"], i)
-        cr = cli_runs.fasta_case(rng, scratch / f"c{i}", tagged=(i % 2 == 1))
+        # (every 4th case: two haplotypes - same-named pieces set aside under one tag from different haplotypes
+        #  must still come out as one record; every 8th: sub-texel Haplotig slivers, whose pieces may be dropped
+        #  altogether - the run may refuse such a map, but a FASTA it writes is still described by its AGP)
+        cr = cli_runs.fasta_case(rng, scratch / f"c{i}", tagged=(i % 2 == 1), two_hap=(i % 4 == 3), tiny_split=(i % 4 == 1))
+        if "hostile:sub-texel-contig-cut-in-two" in cr["labels"]:
+            ctx.count("cli:cases-with-sub-texel-contig-cut-in-two")
+        if i % 4 == 3:
+            ctx.count("cli:two-haplotype-cases")
+        if i % 8 == 5 and cli_runs.add_haplotig_slivers(rng, cr):
+            ctx.count("cli:cases-with-haplotig-slivers")
         try:
             check_cli_case(cr, ctx)
             if i % 3 == 1:
@@ -389,5 +398,8 @@ def gates(c, tier):
         "cli:rerun-no-clobber-over-older-agp": 10,
         "cli:rerun-after-fasta-rewritten-with-cache-mtime": 10,
         "cli:rerun-after-symlink-repointed": 10,
+        "cli:two-haplotype-cases": 20,
+        "cli:cases-with-haplotig-slivers": 5,
+        "cli:cases-with-sub-texel-contig-cut-in-two": 5,
     }
     return [f"{k}>={v} (got {c.get(k, 0)})" for k, v in need.items() if c.get(k, 0) < v]
